@@ -18,9 +18,12 @@ SumSeqs(q) == IF q = <<>> THEN 0 ELSE SumSeq(Head(q)) + SumSeqs(Tail(q))
 
 ShardOf(d) ==
   IF d.kind = "flat" THEN SumSeq(d.ix) % NShards
+  ELSE IF d.kind = "extra" THEN d.i % NShards
   ELSE (d.subj + d.cs + SumSeqs(d.cb) + SumSeq(d.db)) % NShards
 
-Init == cas \in {d \in MsgFamFlat(MaxParts) \cup MsgFamPlural(MaxInner) : ShardOf(d) = Shard}
+Init == cas \in {d \in MsgFamFlat(MaxParts) \cup MsgFamPlural(MaxInner) \cup MsgFamExtra : ShardOf(d) = Shard}
+
+Meanings == <<"", "m", "verb">>
 Next == UNCHANGED cas
 
 CaseRecord(d) ==
@@ -34,7 +37,11 @@ CaseRecord(d) ==
    key   |-> MsgPhBody(ns, nm, body, FALSE),
    coll  |-> MsgSuffixCollision(body),
    multi |-> MsgMultiGroup(body),
-   rep   |-> MsgRepeats(body)]
+   rep   |-> MsgRepeats(body),
+   feat  |-> MsgFeature(body),
+   idterms |-> [i \in 1..Len(Meanings) |->
+                  [meaning |-> Meanings[i],
+                   term |-> MsgIdAbs([body |-> body, meaning |-> Meanings[i], desc |-> ""])]]]
 
 Export == PrintT(ToJson(CaseRecord(cas)))
 =============================================================================
